@@ -41,8 +41,8 @@ type taintState struct {
 	objField  map[objKey]string            // (alloc, field) -> origin
 	structVal map[ssa.Value]map[int]string // struct-typed SSA value -> tainted fields
 	retField  map[*ssa.Function]map[int]map[int]string
-	funcs  []*ssa.Function
-	change bool
+	funcs     []*ssa.Function
+	change    bool
 }
 
 func isFileSource(ci *ssa.Call) (bool, string) {
